@@ -476,6 +476,30 @@ def make_queries(rng, refs, n, mix, ids=None, lattice=None):
     return queries, truths
 
 
+def ref_with_copies(rng, mid, copies=(0.0, 0.0), k=None):
+    """A reference that holds several copies of one block of k labels, far apart; copies[i] is the per-gap jitter (bp) of
+    copy i (0.0 = exact).  Returns (ref, [start index of each copy], k)."""
+    k = k or rng.randint(18, 26)
+    gaps = [2000 + rng.expovariate(1.0 / 8000) for _ in range(k - 1)]
+    pos, starts = [], []
+    p = rng.uniform(500, 5000)
+    for c, jit in enumerate(copies):
+        for _ in range(rng.randint(8, 20) if c == 0 else rng.randint(14, 30)):
+            pos.append(p)
+            p += 2000 + rng.expovariate(1.0 / 8000)
+        starts.append(len(pos))
+        pos.append(p)
+        for g in gaps:
+            p += max(2000.0, g + (rng.uniform(-jit, jit) if jit else 0.0))
+            pos.append(p)
+        p += 2000 + rng.expovariate(1.0 / 8000)
+    for _ in range(rng.randint(8, 20)):
+        pos.append(p)
+        p += 2000 + rng.expovariate(1.0 / 8000)
+    pos = [r1(x) for x in pos]
+    return {"id": mid, "length": r1(pos[-1] + rng.uniform(100, 9000)), "pos": pos, "family": "copies"}, starts, k
+
+
 def add_twin_labels(rng, m, count=1):
     """Two distinct labels at exactly the same coordinate (valid CMAP; real data has them at 0.1 bp resolution)."""
     pos = list(m["pos"])
